@@ -13,15 +13,6 @@ Only property theorems and non-vacuity examples live here.
 namespace Martian.Props.C09
 open Martian Martian.H2Relay
 
-/-- Admissible input of a relay in state `r`: a map pass visits every output buffer (in any
-order, repetitions allowed); direct writes are SETTINGS / PING / GOAWAY, never WINDOW_UPDATE
-(those are only produced as credit, by `RIn.credit`). -/
-def OkStep (r : Relay) (i : RIn) : Prop := OkIn r i ∧ ∀ s n, i ≠ .ctl (.windowUpdate s n)
-
-def OkRun : Relay → List RIn → Prop
-  | _, [] => True
-  | r, i :: is => OkStep r i ∧ OkRun (rstep r i) is
-
 /-- Sum of the WINDOW_UPDATE increments the receiver sent for stream `s` (`s = 0`: connection). -/
 def wuTotal (s : Nat) : List RIn → Int
   | [] => 0
@@ -40,15 +31,6 @@ def dataAccepted : List RIn → List (Nat × Nat)
   | [] => []
   | .credit s n :: is => (if n = 0 then [] else [(s, n)]) ++ dataAccepted is
   | _ :: is => dataAccepted is
-
-private theorem run_invariant {r : Relay} (is : List RIn) (h0 : Good0 r) (h1 : AllStuck r) (hok : OkRun r is) :
-    Good0 (run r is) ∧ AllStuck (run r is) := by
-  induction is generalizing r with
-  | nil => exact ⟨h0, h1⟩
-  | cons i is ih =>
-    exact ih (rstep_good0 h0 i) (rstep_allstuck h0 h1 i hok.1.1) hok.2
-
-private theorem allstuck_init : AllStuck ({} : Relay) := by intro t; simp [StuckAt, Stuck]
 
 private theorem addWin_wu (r : Relay) (s : Nat) (inc : Int) (t : Nat) :
     (addWin r s inc).wu t = r.wu t + (if s = t then inc else 0) := by
@@ -138,27 +120,6 @@ theorem every_emission_fits (conn w : Int) (q : List QFrame) :
   obtain ⟨-, -, -, -, h5, h6, h7⟩ := this
   refine ⟨h7, h5, ?_⟩
   intro hw; rcases h6 with h | h <;> omega
-
-/-- Frames a relay input adds to the output queues. -/
-def acceptedOf (r : Relay) : RIn → List QFrame
-  | .data sid payload es => mkData sid es (dataChunks r.maxFrame payload.length payload)
-  | .header sid fields es prio encoded =>
-    [.headers sid es prio r.nextStamp fields
-      (splitIntoChunks (r.maxFrame - (if prio.isZero then 0 else 5)) r.maxFrame encoded)]
-  | .push sid promised fields encoded =>
-    [.push sid promised r.nextStamp fields (splitIntoChunks (r.maxFrame - 4) r.maxFrame encoded)]
-  | .priority sid p => [.priority sid p]
-  | .rst sid code => [.rst sid code]
-  | _ => []
-
-theorem rstep_accepted (r : Relay) (i : RIn) : (rstep r i).accepted = r.accepted ++ acceptedOf r i := by
-  cases i with
-  | credit sid flow => simp only [rstep, acceptedOf]; split <;> simp
-  | windowUpdate sid inc order =>
-    simp only [rstep, acceptedOf, emitStream_accepted]
-    have : ∀ r1 : Relay, (addWin (getOB r1 sid) sid inc).accepted = r1.accepted := by intro r1; simp [addWin]
-    rw [this]; split <;> simp
-  | _ => simp [rstep, acceptedOf]
 
 private theorem mem_mkData {sid : Nat} {es : Bool} {cs : List Bytes} {f : QFrame} (h : f ∈ mkData sid es cs) :
     ∃ c ∈ cs, ∃ e, f = .data sid e c := by
@@ -298,41 +259,6 @@ theorem no_eligible_frame_stranded (is : List RIn) (hok : OkRun {} is) (s : Nat)
 def sample : List RIn :=
   [.initWin 0 [], .data 1 [1, 2, 3] false, .data 3 [4] true, .windowUpdate 3 1 [],
    .credit 1 16, .windowUpdate 0 10 [3, 1], .initWin 2 [1, 3, 0]]
-
-/-- Executable form of the admissibility hypothesis. -/
-def okStepB (r : Relay) : RIn → Bool
-  | .windowUpdate 0 _ order => r.keys.all (fun t => order.contains t)
-  | .initWin _ order => r.keys.all (fun t => order.contains t)
-  | .ctl (.windowUpdate _ _) => false
-  | _ => true
-
-def okRunB : Relay → List RIn → Bool
-  | _, [] => true
-  | r, i :: is => okStepB r i && okRunB (rstep r i) is
-
-theorem okStepB_sound (r : Relay) (i : RIn) (h : okStepB r i = true) : OkStep r i := by
-  cases i with
-  | windowUpdate sid inc order =>
-    cases sid with
-    | zero =>
-      refine ⟨?_, by intro s n; simp⟩
-      simpa [okStepB, OkIn] using h
-    | succ k => exact ⟨by simp [OkIn], by intro s n; simp⟩
-  | initWin v order =>
-    refine ⟨?_, by intro s n; simp⟩
-    simpa [okStepB, OkIn] using h
-  | ctl c =>
-    cases c with
-    | windowUpdate s n => simp [okStepB] at h
-    | _ => exact ⟨by simp [OkIn], by intro s n; simp⟩
-  | _ => exact ⟨by simp [OkIn], by intro s n; simp⟩
-
-theorem okRunB_sound (r : Relay) (is : List RIn) (h : okRunB r is = true) : OkRun r is := by
-  induction is generalizing r with
-  | nil => trivial
-  | cons i is ih =>
-    simp only [okRunB, Bool.and_eq_true] at h
-    exact ⟨okStepB_sound r i h.1, ih _ h.2⟩
 
 example : OkRun {} sample := okRunB_sound _ _ (by decide)
 
